@@ -214,8 +214,8 @@ def Func.value (f : Func) (e : Env) : Rat :=
   | .max a => maxL (a.map e.x)
   | .min a => minL (a.map e.x)
   | .abs a => rabs (e.x a)
-  | .and a => b2r (!(a.any (fun i => decide (e.x i < 1/2))))
-  | .or a => b2r (a.any (fun i => decide ((1/2 : Rat) ≤ e.x i)))
+  | .and a => b2r (!((a.map e.x).any (fun v => decide (v < 1/2))))
+  | .or a => b2r ((a.map e.x).any (fun v => decide ((1/2 : Rat) ≤ v)))
   | .not a => b2r (decide (e.x a < 1/2))
   | .div a b => e.x a / e.x b
   | .ifthen c t el => if (1/2 : Rat) ≤ e.x c then e.x t else e.x el
@@ -225,7 +225,7 @@ def Func.value (f : Func) (e : Env) : Rat :=
   | .alldiff a => b2r (!(anyEqRound (a.map e.x)))
   | .numberofConst k a => ((a.filter (numberofHit e k)).length : Nat)
   | .numberofVar v0 a => ((a.filter (numberofHit e (e.x v0))).length : Nat)
-  | .count a => ((a.filter (fun v => decide ((1/2 : Rat) ≤ e.x v))).length : Nat)
+  | .count a => (((a.map e.x).filter (fun v => decide ((1/2 : Rat) ≤ v))).length : Nat)
   | .cond c => b2r (c.isValid (c.body.val e.x))
 
 inductive Ctx where | none | pos | neg | mix
